@@ -3,6 +3,9 @@
 (* sequence of calls of one registry case that share their argument objects:                     *)
 (*   {"ev":"Call",  "tr","id","entry","opt","decl":[path..],"slots":[{"p":path,"k":kind,"d":n}]} *)
 (*   {"ev":"Return"|"Raise", "tr","id","slots":[{"p":path,"d":n,"h":n}]}                         *)
+(*   {"ev":"Forms", "tr","id","forms":[..]}   all argument forms exercised by a full run            *)
+(* Call events carry "forms": the forms (Ownership!ArgForms) in which modes / per-mode options are  *)
+(* spelled in that call.                                                                            *)
 (* d = digest of what the caller's graph reaches at p (-1: nothing any more), h = digest of the  *)
 (* object the caller originally passed at p; digests are interned integers, only = is used.      *)
 (* The verdict of an exit event is the set of obliged slots whose digest differs, each with the  *)
@@ -22,7 +25,7 @@ NoDupPaths(slots) == Cardinality(Paths(slots)) = Len(slots)
 IsPath(p) == p \in Seq(STRING) /\ Len(p) >= 2
 
 WellFormedCall(e) ==
-    /\ {"id", "tr", "entry", "opt", "decl", "slots"} \subseteq Fields(e)
+    /\ {"id", "tr", "entry", "opt", "decl", "forms", "slots"} \subseteq Fields(e)
     /\ \A j \in DOMAIN e.slots : {"p", "k", "d"} \subseteq DOMAIN e.slots[j] /\ Len(e.slots[j].p) >= 2
     /\ NoDupPaths(e.slots)
 WellFormedExit(e) ==
@@ -37,6 +40,7 @@ CallVerdict(e) ==
     IF ~WellFormedCall(e) THEN "Malformed"
     ELSE IF pc = "in" /\ e.tr = tr THEN "Malformed"                      \* call inside a call
     ELSE IF SeqToSet(e.decl) # Exempt(e.entry, e.opt) THEN "ExemptDeclMismatch"
+    ELSE IF ~(SeqToSet(e.forms) \subseteq ArgForms) THEN "UnknownArgForm"
     ELSE IF e.tr = tr /\ \E p \in Paths(e.slots) \cap DOMAIN snap : FnOf(e.slots, "d")[p] # snap[p]
          THEN "PreDiffersFromLastPost"      \* the shared objects changed between two calls
     ELSE "ok"
@@ -80,6 +84,10 @@ TraceNext ==
                 /\ snap' = FnOf(e.slots, "d")          \* resynchronise: later calls are judged on what they got
                 /\ pc' = "idle" /\ cur' = NoCall
                 /\ UNCHANGED <<orig, everExempt, tr>>
+       ELSE IF e.ev = "Forms" THEN          \* closing event of a full run: every declared argument form was exercised
+            /\ IF "forms" \in Fields(e) /\ SeqToSet(e.forms) = ArgForms THEN TRUE
+               ELSE PrintT(<<"REJECT", e.id, "ArgFormNotExercised">>)
+            /\ UNCHANGED <<vars, tr>>
        ELSE /\ PrintT(<<"REJECT", e.id, "Malformed">>) /\ UNCHANGED <<vars, tr>>
 
 TraceSpec == TraceInit /\ [][TraceNext]_tvars
